@@ -10,6 +10,7 @@ import (
 	"github.com/failsafe-go/failsafe-go"
 	"github.com/failsafe-go/failsafe-go/hedgepolicy"
 	"github.com/failsafe-go/failsafe-go/retrypolicy"
+	"github.com/failsafe-go/failsafe-go/timeout"
 
 	"verifharness/vk"
 )
@@ -106,4 +107,76 @@ func c08AfterHedgedRound(rep *vk.Report, idx int) {
 		rep.Count("cancelled_in_retry_delay_after_hedged_round", 1)
 		rep.Distinct(fmt.Sprintf("afterhedge|%s|%d|%v|%v", source, maxHedges, cancelMatching, async))
 	}
+}
+
+// c08AfterTimedOutAttempt: Retry(Timeout(fn)) whose first attempt really times out and is retried; the cancellation then
+// arrives while the second attempt runs (well inside its limit). What the earlier Timeout did must not leak into what the
+// caller is told: the caller gets the cause of the cancellation, not the first attempt's ErrExceeded.
+func c08AfterTimedOutAttempt(rep *vk.Report, idx int, prop string) {
+	r := vk.Rng(rep.Seed, "C08t", idx)
+	source := vk.Pick(r, "ctx", "ctx", "async")
+	L := time.Duration(vk.Pick(r, 5, 10, 20)) * time.Millisecond
+	var timeouts, calls atomic.Int64
+	second := make(chan struct{})
+	T := timeout.Builder[int](L).OnTimeoutExceeded(func(failsafe.ExecutionDoneEvent[int]) { timeouts.Add(1) }).Build()
+	rp := retrypolicy.Builder[int]().WithMaxRetries(2).Build()
+	fn := func(exec failsafe.Execution[int]) (int, error) {
+		if calls.Add(1) == 2 {
+			close(second)
+		}
+		<-exec.Canceled() // attempt 1: until its Timeout fires; attempt 2: until the cancellation (or, on a stalled machine, its Timeout)
+		return 0, errE2
+	}
+	ctx := context.Background()
+	cancel := func() {}
+	if source != "async" {
+		var c context.CancelFunc
+		ctx, c = context.WithCancel(ctx)
+		cancel = c
+	}
+	defer cancel()
+	ex := failsafe.NewExecutor[int](rp, T).WithContext(ctx)
+	async := source == "async" || r.IntN(3) == 0
+	var ar failsafe.ExecutionResult[int]
+	arReady := make(chan struct{})
+	go func() {
+		select {
+		case <-second:
+		case <-time.After(5 * time.Second):
+			return
+		}
+		if source == "async" {
+			<-arReady
+			ar.Cancel()
+		} else {
+			cancel()
+		}
+	}()
+	var err error
+	if async {
+		ar = ex.GetWithExecutionAsync(fn)
+		close(arReady)
+		_, err = ar.Get()
+	} else {
+		close(arReady)
+		_, err = ex.GetWithExecution(fn)
+	}
+	time.Sleep(L + 10*time.Millisecond)
+	rep.Eval()
+	want := context.Canceled
+	if source == "async" {
+		want = failsafe.ErrExecutionCanceled
+	}
+	cs := map[string]any{"source": source, "limit_ns": int64(L), "async": async}
+	if timeouts.Load() != 1 || calls.Load() != 2 {
+		// the second attempt timed out as well before the cancellation was delivered (stall), or never started
+		rep.Count("timed_out_attempt_scenarios_disturbed", 1)
+		return
+	}
+	if !errors.Is(err, want) {
+		rep.Violate(idx, prop+"/stale-timeout-result-after-retry", fmt.Sprintf("Retry(Timeout %v (fn)): attempt 1 timed out and was retried, the execution was cancelled (%s) while attempt 2 ran within its limit (OnTimeoutExceeded fired once): caller received %v, want %v", L, source, err, want), cs)
+		return
+	}
+	rep.Count("cancelled_in_attempt_after_timed_out_attempt", 1)
+	rep.Distinct(fmt.Sprintf("aftertimeout|%s|%d|%v", source, L, async))
 }
